@@ -100,6 +100,7 @@ type Axiom struct {
 type Contracts struct {
 	Funcs   map[string]*FuncContract
 	Ifaces  map[string]*FuncContract // key: pkg.Iface.method
+	FuncTypes map[string]*FuncContract // key: pkg.FuncType
 	Specs   map[string]*SpecFunc
 	Types   map[string]*TypeDecl // key pkg.Type
 	Axioms  []*Axiom
@@ -114,7 +115,7 @@ type Contracts struct {
 }
 
 func newContracts() *Contracts {
-	return &Contracts{Funcs: map[string]*FuncContract{}, Ifaces: map[string]*FuncContract{}, Specs: map[string]*SpecFunc{},
+	return &Contracts{Funcs: map[string]*FuncContract{}, Ifaces: map[string]*FuncContract{}, FuncTypes: map[string]*FuncContract{}, Specs: map[string]*SpecFunc{},
 		Types: map[string]*TypeDecl{}, Globals: map[string]string{}, IfaceTypes: map[string][]string{}, IfaceTypesAt: map[string]string{}}
 }
 
@@ -195,7 +196,7 @@ func (cs *Contracts) LoadFile(path string) {
 		switch word {
 		case "package":
 			pkg = rest
-		case "func", "extern", "iface":
+		case "func", "extern", "iface", "functype":
 			name := rest
 			if i := strings.Index(name, " "); i >= 0 && !strings.HasPrefix(name, "(") {
 				name = name[:i]
@@ -221,7 +222,12 @@ func (cs *Contracts) LoadFile(path string) {
 			if word == "extern" {
 				cur.Trusted = true
 			}
-			if word == "iface" {
+			if word == "functype" {
+				// contract of a named function type: honoured by every function of the package with that
+				// signature, relied on where a value of the type is called
+				cur.Key = pkg + "." + name
+				cs.FuncTypes[cur.Key] = cur
+			} else if word == "iface" {
 				key = pkg + "." + name
 				if strings.Count(name, ".") >= 2 {
 					key = name
@@ -488,7 +494,10 @@ func (cs *Contracts) funcClause(cur *FuncContract, path string, ln int, word, re
 		} else {
 			cur.Opts[kv[0]] = "true"
 		}
-	case "assert", "assume":
+	case "assert", "assume", "finding":
+		// finding at <site>: label: expr - a recorded defect: asserted (the obligation fails and is matched
+		// with known_findings.json by its name) and then assumed, so that everything downstream is checked
+		// as if the defect were repaired and a different violation is still reported.
 		// assert <label>: at <site>: expr    |   assert label: expr (site = label lookup by obligation point)
 		site := ""
 		text := rest
